@@ -21,6 +21,7 @@ fn main() {
     let workers: usize = std::env::var("VERIF_WORKERS").ok().and_then(|s| s.parse().ok()).unwrap_or(16);
     let ctx = Ctx { property: property.clone(), tier, seed, replay, workers };
     panics::install();
+    vharness::relock::install();
     faults::install();
     let code = props::dispatch(&ctx);
     std::process::exit(code);
